@@ -49,11 +49,12 @@ def jobs(tier, seed):
 
 
 def job_build(job, res):
-    length, plist, p, n = job['length'], job['plist'], job['p'], job['n']
+    length, plist, p, n0 = job['length'], job['plist'], job['p'], job['n']
     M = L.MODS
     K = len(plist)
 
     def body(ex, pr):
+        n = n0
         L.CLOCK.reset()
         class TB(M['partitioned'].PartitionedDistinguisherBase, M['template']._TemplateBuildDistinguisherMixin):
             pass
@@ -61,7 +62,8 @@ def job_build(job, res):
         rest = [plist[1 + (j // 2) % (K - 1)] for j in range(n - 2)]
         if rest.count(rest[-1]) < 2:
             rest[-1] = rest[0]
-        lab = [[plist[0]], [plist[0]]] + [[v] for v in rest]
+        lab = [[plist[0]], [plist[0]]] + [[v] for v in rest] + [[plist[0]]]       # the second batch holds exactly one trace of the first class
+        n = len(lab)
         x = S.sym_real('x', (n, length), 'float64' if p == 'float64' else 'uint8')
         y = S.const(rnp.array(lab, dtype='uint8'))
         d = TB(partitions=plist, precision=p)
